@@ -326,6 +326,21 @@ func callOp(a verAPI, op Op, obj unsafe.Pointer, lastErr error, out *opOut) {
 			out.str = lastErr.Error()
 			out.res = out.str
 		}
+	case kExtra:
+		fn := findExtra(a.Ver(), op.S)
+		if fn == nil {
+			out.res = "no such function"
+			return
+		}
+		args := strings.Split(op.S2, "\x1f")
+		for len(args) < len(fn.Params) {
+			args = append(args, "")
+		}
+		rs := fn.Call(obj, args)
+		out.res = canonResults(rs, a)
+		if op.D == 1 {
+			scribble(rs) // the caller uses what it got as its own
+		}
 	}
 }
 
@@ -372,10 +387,14 @@ func (x *runCtx) execOp(tc *taskCtx, opi int, op Op) {
 	if op.C >= 0 {
 		c = x.cells[op.C]
 	}
-	if op.D >= 0 {
+	if op.D >= 0 && op.K != kExtra {
 		d = x.cells[op.D]
 	}
-	unlock := x.lockCells(op.C, op.D)
+	dLock := op.D
+	if op.K == kExtra {
+		dLock = -1
+	}
+	unlock := x.lockCells(op.C, dLock)
 	defer unlock()
 
 	var a verAPI
@@ -394,6 +413,13 @@ func (x *runCtx) execOp(tc *taskCtx, opi int, op Op) {
 	}
 	if (op.K == kNomen && !a.HasNomen()) || (op.K == kRating && !a.HasRating()) {
 		return
+	}
+	if op.K == kExtra {
+		fn := findExtra(a.Ver(), op.S)
+		if fn == nil || (fn.Recv == 1) != (c != nil) {
+			return
+		}
+		d = nil // D is a flag for this kind, not a cell
 	}
 
 	// lazily observed models (Plan.LoudObs)
@@ -490,6 +516,9 @@ func (x *runCtx) execOp(tc *taskCtx, opi int, op Op) {
 	case kParse:
 		r.key = fmt.Sprintf("%d|parse|%s", a.Ver(), op.S)
 		r.calmable = true
+	case kExtra:
+		r.key = fmt.Sprintf("%d|extra|%s|%s|%s|%d", a.Ver(), op.S, hexs(before), op.S2, op.D)
+		r.calmable = a.PtrFree()
 	default:
 		r.key = fmt.Sprintf("%d|%s|%s|%s|%s", a.Ver(), op.K, hexs(before), op.S, op.S2)
 		r.calmable = a.PtrFree() // a value with pointers inside cannot be rebuilt from its bytes
